@@ -488,7 +488,7 @@ Lemma e_step_completes cenv eenv ct o ct' cs et :
   Forall2 hl cenv eenv -> cstep ops (ct, cenv) o = Some (Ok (ct', cs)) ->
   exists et' es, estep ops (et, eenv) o = Some (Ok (et', es)) /\ Forall2 hl cs es.
 Proof.
-  intros F. destruct o as [tensor var sh data|assign code c a|mode code a b|a b|mu e a|tensor sh cm e a|e1 e2 a];
+  intros F. destruct o as [tensor var sh data|assign code c a|mode code a b|a b|mu e a|tensor sh cm e a|e1 e2 a|kind a];
     cbn [cstep estep].
   - (* declarations *)
     destruct (negb (shape_valid sh (length data)) || negb (tensor || Nat.eqb (length sh) 2)) eqn:Ev; [discriminate|].
@@ -624,6 +624,26 @@ Proof.
     eexists _, _. split; [reflexivity|]. constructor; [|constructor; [|constructor]].
     + split; [split; cbn; congruence|]. rewrite R1. exact Hz1.
     + split; [split; cbn; congruence|]. rewrite Q1. exact Hz2.
+  - (* views *)
+    destruct (nth_error cenv a) as [cx|] eqn:Ea; [|discriminate].
+    destruct (Forall2_nth_error _ _ _ _ _ F Ea) as (ex & Ee & [[L1 L2] Hh]). rewrite Ee.
+    rewrite <- L1, <- L2.
+    assert (P : forall tensor sh,
+              hl (mkCont tensor sh (column_major (c_shape cx) (c_data cx)) (c_hist cx))
+                 (mkECont tensor sh (column_major (c_shape cx) (e_recs ex)))).
+    { intros tensor sh. split; [split; reflexivity|]. rewrite as_records_mk in *. cbn [c_data c_hist e_recs].
+      rewrite map_column_major6. apply hsim_column_major. exact Hh. }
+    destruct kind as [|[|[|[|k]]]]; try discriminate.
+    + destruct (c_tensor cx); [|discriminate]. destruct (c_shape cx) as [|[n0 r] [|[n1 c] [|]]]; try discriminate.
+      intros E; inversion E; subst. eexists _, _. split; [reflexivity|]. constructor; [|constructor].
+      exact (P false [(0, c); (1, r)]).
+    + destruct (c_tensor cx); [|discriminate]. destruct (c_shape cx) as [|[n0 r] [|[n1 c] [|]]]; try discriminate.
+      intros E; inversion E; subst. eexists _, _. split; [reflexivity|]. constructor; [|constructor].
+      exact (P true [(n1, c); (n0, r)]).
+    + intros E; inversion E; subst. eexists _, _. split; [reflexivity|]. constructor; [|constructor].
+      split; [split; reflexivity|]. unfold hsim. rewrite as_records_mk. cbn [c_data c_hist e_recs]. rewrite !map_map.
+      cbn [r_hist rec_constant]. pose proof (hsim_length _ _ Hh) as L. rewrite as_records_mk, map_length in L.
+      rewrite !map_const. congruence.
 Qed.
 
 Lemma e_run_completes : forall prog ct cenv eenv n m ct' cenv' et n',
